@@ -86,13 +86,14 @@ Example flood_forest_applies :
                     && negb (isnodata [5;5;5; 5;1;5; 5;5;5] (-9999) j)) (seq 0 9) = true.
 Proof. vm_compute. reflexivity. Qed.
 
-(* IDEMPOTENCE: filling the filled surface again changes no elevation -- for outlet modes 'edge' (0) and user cells (2),
-   when no valid cell is filled up exactly to the nodata value (it would count as nodata in the second run).  Follows
+(* IDEMPOTENCE: filling the filled surface again changes no elevation -- for all three outlet modes ('edge' 0, 'min' 1:
+   the lowest edge cell keeps its level while every other edge cell can only rise, so the same cell is selected again;
+   user cells 2), when no valid cell is filled up exactly to the nodata value (it would count as nodata in the second run).  Follows
    from the minimax characterisation: the stored path of the first run bounds the second fill from above, and every
    path's maximum includes its end point. *)
 From PF Require Import FloodIdem.
 Theorem fill_idempotent : forall nrow ncol elv nodata conn mode pits,
-  length elv = (nrow * ncol)%nat -> mode <> 1 ->
+  length elv = (nrow * ncol)%nat ->
   (mode = 2 -> forall p, In p pits -> isnodata elv nodata p = false) ->
   (forall j, (j < nrow * ncol)%nat -> isnodata elv nodata j = false ->
      filledv elv (flood_state nrow ncol elv nodata conn mode pits) j <> nodata) ->
@@ -105,3 +106,10 @@ Print Assumptions fill_idempotent.
 Example Lv_is_filled : forall nrow ncol elv nodata conn mode pits,
   Lv nrow ncol elv nodata conn mode pits = fst (fill_depressions nrow ncol elv nodata conn mode pits).
 Proof. reflexivity. Qed.
+
+(* non-vacuity for outlets = 'min': a 3x3 bowl whose lowest edge cell is selected in both runs *)
+Example idempotent_min_example :
+  let elv := [5;4;5; 5;1;5; 5;5;5] in
+  fst (fill_depressions 3 3 elv (-9999) 8 1 []) = [5;4;5; 5;4;5; 5;5;5] /\
+  fst (fill_depressions 3 3 (fst (fill_depressions 3 3 elv (-9999) 8 1 [])) (-9999) 8 1 []) = [5;4;5; 5;4;5; 5;5;5].
+Proof. vm_compute. split; reflexivity. Qed.
